@@ -87,6 +87,10 @@ def tainted(what):
     return Tainted(what)
 
 
+def _truthy(r):
+    return r is True or (r is not False and bool(r))
+
+
 def _cell_eq(a, b):
     if isinstance(a, _str) and isinstance(b, _str):
         return z3.BoolVal(a == b)
@@ -701,7 +705,35 @@ class FakeMatch:
         raise Unsupported(f"match.{name} on a symbolic subject")
 
 
+def _re_sub_symbolic(pattern, repl, subject, kwargs):
+    """re.sub with a symbolic subject: only what the code base needs"""
+    if kwargs:
+        raise Unsupported("re.sub with keywords on a symbolic subject")
+    if pattern == "(00)*$" and repl == "":  # strip trailing '00' pairs (parser_10e0)
+        cs = list(subject.chars)
+        while len(cs) >= 2:
+            r = _eq_cells(cs[-2:], ["0", "0"])
+            if not _truthy(r):
+                break
+            cs = cs[:-2]
+        return mk(cs)
+    hit = re_match_cond(pattern, subject, "search")
+    if hit is False or (hit is not True and not bool(hit)):
+        return subject  # pattern cannot occur: unchanged
+    raise Unsupported(f"re.sub({pattern!r}) on a symbolic subject")
+
+
 def sx_re_call(kind, recv, args, kwargs):
+    if kind in ("sub", "subn", "findall", "finditer"):
+        if recv is re and len(args) >= 3 and isinstance(args[2], (SymStr, Tainted)):
+            if kind == "sub" and isinstance(args[2], SymStr) and len(args) == 3:
+                return _re_sub_symbolic(args[0], args[1], args[2], kwargs)
+            raise Unsupported(f"re.{kind} on a symbolic subject")
+        if isinstance(recv, re.Pattern) and len(args) >= 1 and isinstance(args[-1], (SymStr, Tainted)):
+            if kind == "sub" and len(args) == 2 and isinstance(args[1], SymStr):
+                return _re_sub_symbolic(recv.pattern, args[0], args[1], kwargs)
+            raise Unsupported(f"Pattern.{kind} on a symbolic subject")
+        return getattr(recv, kind)(*args, **kwargs)
     if isinstance(recv, re.Pattern):
         if args and isinstance(args[0], SymStr):
             if kind not in ("match", "fullmatch", "search") or len(args) > 1 or kwargs:
@@ -721,10 +753,6 @@ def sx_re_call(kind, recv, args, kwargs):
 
 # ---------------------------------------------------------------------------------------
 # runtime helpers for rewritten syntax
-
-
-def _truthy(r):
-    return r is True or (r is not False and bool(r))
 
 
 def sx_eq(a, b, negate=False):
